@@ -108,6 +108,7 @@ MODEL_OPS = {
     '01u': ['cc_wu', 'cc_bu', 'cc_wd', 'cc_bd', 'trans_wu', 'trans_bu', 'trans_wd', 'trans_bd', 'strengths_und', 'degrees_und', 'strengths_dir', 'degrees_dir'],
     '01d': ['cc_wd', 'cc_bd', 'trans_wd', 'trans_bd', 'strengths_dir', 'degrees_dir'],
     'symw': ['cc_wd', 'cc_wu', 'trans_wd', 'trans_wu', 'degrees_dir', 'degrees_und', 'strengths_dir', 'strengths_und'],
+    'symg': ['degrees_dir', 'degrees_und', 'strengths_dir', 'strengths_und', 'cc_sign_zhang', 'cc_sign_costantini'],
     'ignu': ['degrees_und', 'degrees_dir'],
     'ignd': ['degrees_dir'],
 }
@@ -144,12 +145,12 @@ def run_case(case):
     kind = case['kind']; n = len(W)
     Wf = cc.fl(W)
     sym = cc.is_sym(W)
-    res = {'fails': [], 'npairs': 0, 'timeouts': 0, 'skipped': 0, 'both_raise': {}, 'nonzero': False, 'model': []}
+    res = {'fails': [], 'npairs': 0, 'timeouts': 0, 'skipped': 0, 'both_raise': {}, 'nonzero': False, 'model': [], 'model_fail': []}
     cond = {'symmetric': sym}
     if kind in ('01u', '01d'):
         for label, f, g, exact in pairs_on01(bct, sym):
             run_pair(label, f, g, Wf, P01, exact, dict(cond, pair=label), res)
-    if kind in ('01u', 'symw'):
+    if kind in ('01u', 'symw', 'symg'):
         for label, f, g, exact in pairs_symm(bct, cc.is_bin(W)):
             run_pair(label, f, g, Wf, PSYM, exact, dict(cond, pair=label), res)
     if kind in ('ignu', 'ignd'):
@@ -160,6 +161,8 @@ def run_case(case):
         if R is None and name in ('cc_wu', 'cc_wd', 'trans_wu', 'trans_wd') and not cc.is_bin(W):
             continue
         st, out = cc.run_bct(bct, name, Wf)
+        if st != 'ok':
+            res['model_fail'].append((name, st, out))
         if st == 'ok':
             res['model'].append((name, out, cc.is_bin(W) or name.startswith('degrees') or
                                  (name.startswith('strengths') and all(x.denominator == 1 for row in W for x in row))))
@@ -194,6 +197,10 @@ def gen_cases(rs, tier):
     allw4 = list(cc.all_mats(4, False, H))
     for x in (range(len(allw4)) if thorough else rs.permutation(len(allw4))[:100]):
         add('symw', allw4[int(x)], 'exh-symw4')
+    G3 = (F(0), F(1, 2), F(3, 10))
+    allg = list(cc.all_mats(3, False, G3)) + list(cc.all_mats(4, False, (F(0), F(1, 2), F(-3, 10))))
+    for x in (range(len(allg)) if thorough else rs.permutation(len(allg))[:100]):
+        add('symg', allg[int(x)], 'exh-symg', raw=True)
     nr = 700 if thorough else 70
     nmax = 10
     ints = [F(k) for k in range(1, 10)]
@@ -203,6 +210,8 @@ def gen_cases(rs, tier):
         add('01d', cc.rand_mat(rs, n, d, True, [F(1)], isolate=iso), 'rand-01d')
         add('symw', cc.rand_mat(rs, n, d, False, cc.ROOTS, isolate=iso), 'rand-symw')
         add('symw', cc.rand_mat(rs, n, d, False, cc.ROOTS, signed=True, isolate=iso), 'rand-symw-signed')
+        add('symg', cc.rand_mat(rs, n, d, False, cc.GENERIC, isolate=iso), 'rand-symg', raw=True)
+        add('symg', cc.rand_mat(rs, n, d, False, cc.GENERIC, signed=True, isolate=iso), 'rand-symg-signed', raw=True)
         add('ignu', cc.rand_mat(rs, n, d, False, ints + cc.ROOTS, isolate=iso), 'rand-ignu', raw=True)
         add('ignd', cc.rand_mat(rs, n, d, True, ints + cc.ROOTS, isolate=iso), 'rand-ignd', raw=True)
     for n in ((3, 4) if thorough else (3,)):
@@ -223,7 +232,7 @@ def main():
     ck = Check(PID)
     ck.cov['rule'] = ('case = (matrix, pair of public bct functions); 0/1 matrices: every undirected n<=4 (n=5: all in thorough, slice in quick), every directed '
                       'n<=3 (n=4: all in thorough, slice in quick), random n=5..10 with isolated nodes, stars/paths/cycles/bipartite/complete/trees; symmetric '
-                      'weighted: every n=3 (n=4) matrix with cube roots in {0,1/2,1}, random n=5..10 with weights (p/q)^3 (also signed); weight-ignoring: '
+                      'weighted: every n=3 (n=4) matrix with cube roots in {0,1/2,1}, random n=5..10 with weights (p/q)^3 (also signed) and with generic decimal/dyadic weights (also signed; every n=3 matrix over {0,1/2,3/10}); weight-ignoring: '
                       'integer/fractional weights vs their binarisation; non-trivial = distinct matrix on which some compared pair returned a non-zero value')
     ck.assumptions += ['inputs have an empty diagonal and float dtype',
                        "efficiency_wei(local='original') is documented not to generalise the binary variant and is not compared; local=True (Wang 2016) is",
@@ -250,6 +259,9 @@ def main():
                 nontrivial_key=digest([c['kind'], cc.fstr(W)]) if r['nonzero'] else None)
         for label, pred, info, cond in r['fails']:
             ck.violation(label, pred, {'case': c, 'pair': label, 'info': info}, cond)
+        for name, st, out in r['model_fail']:
+            ck.count('model-op call not ok:%s:%s' % (name, st))
+            ck.corr_break('bct.%s did not return on a case used for the model correspondence' % cc.PUBLIC[name], {'case': c, 'status': st, 'detail': out})
         for name, out, exact in r['model']:
             lines.append(cc.lean_line(name, W)); meta.append((c, name, out, exact))
     if ok:
